@@ -45,7 +45,7 @@ func (c11) Plan(tier string) fw.Plan {
 		MinEvents:   []string{"tracked_nodes", "history_steps", "rereads", "step:reset-reuse", "step:assign-extend", "step:transform", "step:subset", "step:load-more", "step:decode-again", "step:walk", "step:encode"},
 	}
 	if tier == "thorough" {
-		p.Batches, p.Cases, p.TimeoutSec = 64, 8000, 3000
+		p.Batches, p.Cases, p.TimeoutSec = 64, 4000, 3000
 	}
 	return p
 }
